@@ -312,3 +312,95 @@ def values_at(P, fn, target_ev, expr, env0, max_states=5000):
                     continue
             work.append((s, dict(env)))
     return out
+
+
+def trace_calls(P, fn, env0, max_steps=20000):
+    """Finite-domain evaluation of the control skeleton of fn for ONE element of
+    the finite input domain (env0 binds the enumerated parameters, e.g. a
+    concrete length and address): values that cannot be evaluated become
+    unknown, every branch condition must be evaluable (else Top), and the
+    calls are returned in evaluation order as (callee, [arg...]) with each arg
+    an int, ('deref', address), ('addr', local name) or None."""
+    fd = FD(P)
+    env = dict(env0)
+    out = []
+    b = fn.entry
+    steps = 0
+
+    def arg_desc(a):
+        a0 = strip_casts(a)
+        if a0.get('op') == 'un' and a0['o'] == '*':
+            try:
+                return ('deref', fd.ev(fn, a0['k'][0], env))
+            except (Top, ZeroDivisionError):
+                return None
+        if a0.get('op') == 'sub':
+            try:
+                base = fd.ev(fn, a0['k'][0], env)
+                idx = fd.ev(fn, a0['k'][1], env)
+                esz = {'u8': 1, 'i8': 1, 'u16': 2, 'u32': 4, 'u64': 8, 'i32': 4, 'i64': 8}.get(a0.get('t'), 1)
+                return ('deref', base + idx * esz)
+            except (Top, ZeroDivisionError):
+                return None
+        if a0.get('op') == 'un' and a0['o'] == '&':
+            inner = strip_casts(a0['k'][0])
+            if inner.get('op') == 'ref':
+                return ('addr', inner['name'])
+        try:
+            return fd.ev(fn, a0, env)
+        except (Top, ZeroDivisionError):
+            if a0.get('op') == 'ref':
+                return ('var', a0['name'])
+            return None
+
+    while True:
+        for ev in b.events:
+            steps += 1
+            if steps > max_steps:
+                raise Top()
+            if ev.k == 'decl':
+                try:
+                    if ev.e is None:
+                        raise Top()
+                    env[ev.name] = wrap(fd.ev(fn, ev.e, env), ev.t)
+                except (Top, ZeroDivisionError):
+                    env.pop(ev.name, None)
+            elif ev.k == 'store':
+                lhs, rhs, o = ev.store_parts()
+                l0 = strip_casts(lhs)
+                if l0.get('op') != 'ref':
+                    continue
+                name = l0['name']
+                try:
+                    if rhs is None:
+                        env[name] = wrap(env[name] + (1 if '++' in o else -1), l0.get('t'))
+                    elif o == '=':
+                        env[name] = wrap(fd.ev(fn, rhs, env), l0.get('t'))
+                    else:
+                        fake = {'op': 'bin', 'o': o[:-1], 't': ev.e.get('ct') or l0.get('t'), 'k': [l0, rhs]}
+                        env[name] = wrap(fd.ev(fn, fake, env), l0.get('t'))
+                except (Top, ZeroDivisionError, KeyError):
+                    env.pop(name, None)
+            elif ev.k == 'call':
+                out.append((ev.callee, [arg_desc(a) for a in ev.args], ev))
+                for a in ev.args:
+                    a0 = strip_casts(a)
+                    if a0.get('op') == 'un' and a0['o'] == '&':
+                        inner = strip_casts(a0['k'][0])
+                        if inner.get('op') == 'ref':
+                            env.pop(inner['name'], None)
+            elif ev.k == 'ret':
+                return out
+        if not b.succs:
+            return out
+        if len(b.succs) == 1:
+            b = b.succs[0][0]
+            continue
+        c = fd.ev(fn, b.cond, env)      # Top propagates: the skeleton is not decidable for this input
+        nxt = None
+        for s, label in b.succs:
+            if (label == 'T' and c) or (label == 'F' and not c):
+                nxt = s
+        if nxt is None:
+            raise Top()
+        b = nxt
